@@ -123,7 +123,7 @@ fn length_special(orig: u32, remaining: u32, s: &mut Src) -> u32 {
         8 => remaining.wrapping_add(1),
         9 => orig.wrapping_mul(2),
         10 => 0x0100_0000,
-        11 => 0x0010_0000,
+        11 => 0x0002_0000,
         12 => 0x4000_0000,
         13 => orig.wrapping_add(4),
         14 => 0x2000_0000,
@@ -480,7 +480,8 @@ fn step_xcdr(b: &mut Vec<u8>, s: &mut Src, le: bool) -> &'static str {
         }
         _ => {
             // moderate lengths: large enough to matter for allocation, small enough to pass a naive cap
-            let v = [0x0001_0000u32, 0x0004_0000, 0x0010_0000, 0x0040_0000, 0x00ff_ffff][s.below(5) as usize];
+            // (the multi-million values cost up to 2 s of CPU each on element types that can be empty: rare on purpose)
+            let v = if s.below(24) == 0 { [0x0010_0000u32, 0x0040_0000, 0x00ff_ffff][s.below(3) as usize] } else { [0x0000_4000u32, 0x0001_0000, 0x0002_0000, 0x0004_0000][s.below(4) as usize] };
             wr_u32(b, off, v, le);
             "xcdr-moderate-length"
         }
